@@ -158,6 +158,12 @@ def family_direction_a(run, pid, kinds, sample, fams=("castle", "ep", "promo")):
         for mm in res["mismatches"]:
             if mm["kind"] in kinds or mm["kind"] == "panic":
                 fen = chessutil.s_to_fen(mm["pos"])
+                if mm["kind"] in ("successor-after", "text-after", "text-printed", "residue-after"):
+                    mv = chessutil.move_name(mm["after"])
+                    run.violation("family-%s:%s:%s:%s" % (mm["kind"], fam, fen.replace(" ", "_"), mv),
+                                  "%s: after %s at %s the engine has %s, the rules give %s" % (mm["kind"], mv, fen, str(mm.get("engine"))[:200], str(mm.get("rules"))[:200]),
+                                  {"type": "walk", "fen": fen, "texts": [], "capsfrom": -1})
+                    continue
                 if mm["kind"] == "moveset-after":
                     mv = chessutil.move_name(mm["after"])
                     run.violation("family-moveset-after:%s:%s:%s" % (fam, fen.replace(" ", "_"), mv),
